@@ -42,6 +42,16 @@ static void describe(sb_t *o)
 
 /* ---------- exact parser state key ---------- */
 static sb_t keybuf;
+#ifdef MC_NO_INTROSPECTION
+/* struct json_tokener no longer has the fields read below: no state merging.  Every partition
+ * prefix is its own node (the key is the path), capped per text; verdicts are unaffected. */
+static unsigned long nointro_serial;
+static uint64_t tok_key(struct json_tokener *tok)
+{
+	(void)tok;
+	return mc_hash(&nointro_serial, sizeof nointro_serial, ++nointro_serial);
+}
+#else
 static uint64_t tok_key(struct json_tokener *tok)
 {
 	sb_reset(&keybuf);
@@ -62,6 +72,7 @@ static uint64_t tok_key(struct json_tokener *tok)
 	}
 	return mc_hash(keybuf.p, keybuf.n, 7);
 }
+#endif
 
 /* ---------- outcomes ---------- */
 enum
@@ -159,7 +170,11 @@ static void bring(struct json_tokener *tok, int n)
 	bring(tok, nodes[n].parent);
 	struct outcome o;
 	do_call(tok, nodes[nodes[n].parent].pos, nodes[n].pos, &o);
+#ifdef MC_NO_INTROSPECTION
+	if (o.status != ST_CONTINUE)
+#else
 	if (o.status != ST_CONTINUE || o.key != nodes[n].key)
+#endif
 	{
 		mc_violation("harness:replay-divergence", "replaying the recorded partition up to %zu gave a different parser state (nondeterminism)", nodes[n].pos);
 	}
@@ -285,8 +300,6 @@ static void check_reset_equals_new(int n, size_t i, size_t j, uint64_t statekey)
 			char a[96], b[96];
 			path_str(n, j);
 			const char *sig = "reset-differs-from-new";
-			if (tok->high_surrogate == 0 && 0)
-				sig = "x";
 			mc_violation(sig, "after the calls cut at %s and json_tokener_reset, probe %s gives %s; a new parser gives %s", cur_path,
 			             probes[k], oc_str(&o, a, sizeof a), oc_str(&probe_fresh[k], b, sizeof b));
 		}
@@ -426,7 +439,11 @@ static void explore_text_inner(void)
 			{
 				if (find_node(j, o.key) < 0)
 				{
+#ifdef MC_NO_INTROSPECTION
+					if (nnodes < 96)
+#else
 					if (nnodes < MAXNODES && nnodes < (int)(8 * TL + 8))
+#endif
 					{
 						nodes[nnodes].pos = j;
 						nodes[nnodes].key = o.key;
@@ -806,7 +823,7 @@ static void fam_depth(void)
 							sb_putc(&txt, closers[i]);
 						TL = txt.n;
 						memcpy(T, txt.p, TL);
-						c15_oneshot_and_graph(D, D <= (mc_tier ? 6 : 4) && k <= D + 1);
+						c15_oneshot_and_graph(D, D <= (mc_tier ? 8 : 4) && k <= D + 1);
 					}
 		}
 	/* refused depth values */
